@@ -682,3 +682,19 @@ val replacements :
 val rename_columns : aobj -> char list list -> char list list outcome
 
 val export : aobj -> state -> (char list * char list) list outcome
+
+val positions : z list -> z list -> (nat * nat) list
+
+val write_positions :
+  pyval list -> (nat * nat) list -> pyval list -> pyval list
+
+val reindex_name :
+  (char list -> char list) -> (char list -> dtype -> pyval) -> z list ->
+  state -> (char list * var) list outcome -> char list -> (char list * var)
+  list outcome
+
+val reindex_with :
+  (char list -> char list) -> (char list -> dtype -> pyval) -> z list ->
+  state -> state outcome
+
+val np_fill : ckind -> char list -> dtype -> pyval
